@@ -152,7 +152,7 @@ pub fn render_config(p: &Project, r: &mut Rng) -> String {
             heads.push(format!("%{pa}"));
         }
         if let Some(al) = &t.alias {
-            heads.push(format!("${al}"));
+            heads.push(format!("${al}{}", if r.chance(1, 6) { ".alias" } else { "" }));
         }
         if heads.len() == 2 && r.chance(1, 2) {
             heads.swap(0, 1);
@@ -364,7 +364,13 @@ pub fn gen_scn(d: &Data, r: &mut Rng, faulty: bool, bad: Option<&str>) -> Scn {
     for step in 0..n {
         let from_wd = r.chance(1, 5);
         let cwd = if from_wd { "wd".to_string() } else { PROJ.to_string() };
-        let path = if from_wd { Some(format!("../{PROJ}")) } else if r.chance(1, 6) { Some(".".to_string()) } else { None };
+        let path = if from_wd {
+            Some(format!("../{PROJ}{}", if r.chance(1, 3) { "/" } else { "" }))
+        } else if r.chance(1, 6) {
+            Some((*r.pick(&[".", "./", "../proj"])).to_string())
+        } else {
+            None
+        };
         let last = step + 1 == n;
         let cmd = if r.chance(3, 4) || (last && bad.is_none() && r.chance(1, 2)) {
             let output = r.chance(4, 5);
